@@ -205,6 +205,8 @@ def judge_group(g):
     return v, len(g["variants"])
 
 
+CONTENT_OPTS = [{"output_dependencies": True, "procname": "p"}, {"output_dependencies": True, "procname": "p", "initialize_vars": True, "filter_unused_linenum": True, "default_str_storage": 80},
+                {"output_dependencies": True, "procname": "p", "skip_procedure_headers": True}, {"filter_unused_linenum": True}, {"initialize_vars": True, "default_str_storage": 80}]
 ENDINGS = ["\n", "", "\r", "\r\n", "\n\x00", "\x00", "\n\n", "\n20 A=1\n", "\n \n"]
 
 
@@ -214,9 +216,9 @@ def judge_content(c):
     n = tpl.count("{}")
     want = exp.format(*([blanks] * exp.count("{}")))
     out = []
-    for ending in ENDINGS:
+    for ending, opts in [(e, {"add_standard_prefix": False}) for e in ENDINGS] + [("\n", o) for o in CONTENT_OPTS]:
         text = tpl.format(*([blanks] * n))[:-1] + ending
-        r = tool.convert(text, add_standard_prefix=False)
+        r = tool.convert(text, **opts)
         if not r.ok:
             out.append(("content-layout-refused", f"{text!r}: {r.kind}"))
         elif want not in r.text:
@@ -249,9 +251,9 @@ def run(run):
     # content blanks
     for name, tpl, exp in CONTENT:
         for blanks in ("", " ", "  ", "   "):
-            run.states += len(ENDINGS)
-            run.transitions += len(ENDINGS)
-            run.evaluations += len(ENDINGS)
+            run.states += len(ENDINGS) + len(CONTENT_OPTS)
+            run.transitions += len(ENDINGS) + len(CONTENT_OPTS)
+            run.evaluations += len(ENDINGS) + len(CONTENT_OPTS)
             for sym, detail in judge_content((name, tpl, exp, blanks)):
                 run.violation(sym, {"content:" + name}, {"content": name, "tpl": tpl, "exp": exp, "blanks": blanks}, detail)
 
